@@ -485,9 +485,9 @@ Definition flt_of (q : qfilter) (ev : oev) : bool :=
   | FBoth n lo hi => contains n (o_msg ev) && (lo <=? o_ts ev)%Z && (o_ts ev <=? hi)%Z
   end.
 
-(* the behaviour of the tree under check: false = LogEvent.Unmarshal leaves Fields of the previous record
-   in place when the record has none (unchanged /repo); flip to true when the proposed fix is applied *)
-Definition repo_clears_fields : bool := false.
+(* the behaviour of the tree under check: true = LogEvent.Unmarshal resets Fields when the record has none (the
+   code); false = it left Fields of the previous record in place (the code before the repair) *)
+Definition repo_clears_fields : bool := true.
 (* false = provider.GetOrCreate re-positions a cached cursor when the request names another Pos (unchanged /repo);
    flip to true when the proposed provider fix (proposed_fixes/C03-stale-peek-on-retried-page) is applied *)
 Definition repo_strict_pos : bool := false.
